@@ -131,6 +131,7 @@ func c07CompareIn(run *ev.Run, sp *layerSpec, enc []byte, want any, branch strin
 		}
 	}
 	run.Eval(1)
+	run.Event("decodes-compared", 1)
 	l := sp.New()
 	var err error
 	pv, st := safe(func() { err = l.DecodeFromBytes(exactCopy(enc), gopacket.NilDecodeFeedback) })
